@@ -302,12 +302,41 @@ def generate(tier):
         for tl in ('expr', 'both'):
             for salt in range(4 if tier == 'quick' else 12):
                 cases.append(build_type_expr(kind, tl, salt))
+    # expressions that mention outer items named like the type's own fields (the expression is evaluated in the scope of the derive site, not among the fields)
+    for kind, decl, get in (('struct', 'pub struct Ty {{ pub f0: u8, {A1}pub f1: u8, {A2}pub f2: u8 }}', 'x.f{}'),
+                            ('tuple', 'pub struct Ty(pub u8, {A1}pub u8, {A2}pub u8);', 'x.{}'),
+                            ('enum', 'pub enum Ty {{ V0, #[educe(Default)] V1 {{ f0: u8, {A1}f1: u8, {A2}f2: u8 }} }}', None)):
+        for sp in range(5):
+            a1 = '#[educe(%s)] ' % SPELL[sp].format(e='f0 + 1' if sp else 'f0')
+            a2 = '#[educe(%s)] ' % SPELL[(sp + 1) % 5].format(e='f1() + _0' if (sp + 1) % 5 else 'f2')
+            src = '#[allow(non_upper_case_globals)]\nconst f0: u8 = 40;\n#[allow(non_upper_case_globals)]\nconst f2: u8 = 90;\n#[allow(non_upper_case_globals)]\nconst _0: u8 = 5;\nfn f1() -> u8 { 60 }\n'
+            src += '#[derive(Educe, Debug, PartialEq)]\n#[educe(Default(new))]\n' + decl.format(A1=a1, A2=a2) + '\n'
+            w1 = 41 if sp else 40
+            w2 = 65 if (sp + 1) % 5 else 90
+            if kind == 'enum':
+                want = 'Ty::V1 { f0: 0, f1: %d, f2: %d }' % (w1, w2)
+            elif kind == 'struct':
+                want = 'Ty { f0: 0, f1: %d, f2: %d }' % (w1, w2)
+            else:
+                want = 'Ty(0, %d, %d)' % (w1, w2)
+            src += ('pub fn check(r: &mut Rep) {\n    let want = %s;\n    let x = Ty::default();\n    r.ck(x == want, 0, &|| format!("default() = {:?}, expected {:?}", x, want));\n'
+                    '    let y = Ty::new();\n    r.ck(y == want, 1, &|| format!("new() = {:?}, expected {:?}", y, want));\n}\n') % want
+            cases.append(Case('C08|outer-names|%s|%d' % (kind, sp), src, {'kind': kind, 'expressions': 'outer items named f0, f1, f2, _0'}, expect='accept', run=True, depth=2))
+    # a union whose designated field has an expression and a type without Default (the type must not be asked for Default)
+    for k, (ty, expr, probe) in enumerate((('[u8; 40]', 'mk_arr40()', 'unsafe { x.f0[39] } == 7'), ("&'static No", 'NO_REF', 'true'), ('fn(u8) -> u8', 'mk_fn()', 'unsafe { (x.f0)(1) } == 2'))):
+        for sp in range(1, 5):
+            src = 'fn mk_arr40() -> [u8; 40] { [7; 40] }\nstatic NO: No = No;\nconst NO_REF: &\'static No = &NO;\nfn inc(x: u8) -> u8 { x + 1 }\nfn mk_fn() -> fn(u8) -> u8 { inc }\n'
+            src += '#[derive(Educe)]\n#[educe(Default(new))]\npub union Ty {\n    #[educe(%s)]\n    pub f0: %s,\n    pub f1: u8,\n}\n' % (SPELL[sp].format(e=expr), ty)
+            src += 'pub fn check(r: &mut Rep) {\n    let x = Ty::default();\n    r.ck(%s, 0, &|| "default() does not hold the expression".to_string());\n    let x = Ty::new();\n    r.ck(%s, 1, &|| "new() does not hold the expression".to_string());\n}\n' % (probe, probe)
+            cases.append(Case('C08|union-expr-nodefault|%d|%d' % (k, sp), src, {'field_type': ty, 'expression': expr}, expect='accept', run=True, depth=2))
     # attribute contexts
     for cid in ('ints/u16', 'str/String', 'call/V', 'int/DI'):
         for sp in range(5):
             for ctx in CTX[1:]:
                 add(build('struct', 'n', [cid, ('d', 'u8')], [sp, 0], ctx=ctx))
                 add(build('enum', 't', [('d', 'V'), cid], [0, sp], vstyles=['u', 'F'], focus=1, ctx=ctx))
+    from .common import decoy_layer
+    cases += decoy_layer([c for c in cases if c is not None])
     seen, out = set(), []
     for c in cases:
         if c.key not in seen:
